@@ -355,7 +355,9 @@ fn encode_unix_secs(buf: &mut Vec<u8>, time: SystemTime) {
 }
 
 fn decode_unix_secs<B: Buf>(buf: &mut B) -> Option<SystemTime> {
-    Some(UNIX_EPOCH + Duration::from_secs(buf.get::<u64>().ok()?))
+    // `checked_add`: a (correctly sealed) token carrying an absurd timestamp must be rejected,
+    // not panic on `SystemTime` overflow
+    UNIX_EPOCH.checked_add(Duration::from_secs(buf.get::<u64>().ok()?))
 }
 
 /// Stateless reset token
